@@ -116,8 +116,10 @@ class Config:
         self.stall = float(stall)
         self.retry_budget = int(retry_budget)
         self.purity = float(purity)
-        self.permanent_at = permanent_at          # fail the n-th task start of the *next* get call
+        self.permanent_at = permanent_at          # fail the n-th task start of a later get call
         self.permanent_exc = permanent_exc
+        self.permanent_call = 1                   # ... namely of the k-th call after arming
+        self.armed_calls = 0
 
     def to_json(self):
         return dict(W=self.W, reexec=self.reexec, transient=self.transient, stall=self.stall,
@@ -277,8 +279,15 @@ class SimScheduler:
         max_ready = len(ready)
         remaining = len(need)
         last_fault_at_start = 0
-        permanent_at = cfg.permanent_at
-        cfg.permanent_at = None      # one-shot: applies to this call only
+        # one-shot permanent fault: armed by the machine, it fires in the `permanent_call`-th scheduler call
+        # made after arming (a compute() that issues several calls can thus be interrupted between them)
+        permanent_at = None
+        if cfg.permanent_at is not None:
+            cfg.armed_calls += 1
+            if cfg.armed_calls >= (cfg.permanent_call or 1):
+                permanent_at = cfg.permanent_at
+                cfg.permanent_at = None
+                cfg.armed_calls = 0
 
         def log(ev, k, extra=""):
             s = f"{ev} {labels[k]} {extra}"
